@@ -79,7 +79,7 @@ fn gen_history(r: &mut Rng, n: usize) -> (Vec<COp>, Vec<COp>) {
             "set" => (if r.chance(1, 3) { format!("set {} same{}", k, r.below(2)) } else { format!("set {} v{}", k, uniq) }, k.to_string()),
             "set-safe" => (if r.chance(1, 3) { format!("set-safe {} {} same{}", k, r.below(4), r.below(2)) } else { format!("set-safe {} {} s{}", k, r.below(4), uniq) }, k.to_string()),
             "remove" => (format!("remove {}", k), k.to_string()),
-            "increment" => (format!("increment {} {}", k, r.range(1, 5)), k.to_string()),
+            "increment" => (format!("increment {} {}", k, *r.pick(&[1i32, 2, 3, 4, 5, 0, 0, -2])), k.to_string()),
             "create-user" => (if r.chance(1, 3) { format!("create-user u{} secret", uniq % 2) } else { format!("create-user u{} secret{}", uniq % 2, uniq) }, format!("$$user_u{}", uniq % 2)),
             "set-permissions" => (format!("set-permissions u{} rw k*", uniq % 2), format!("$$permission_$u{}", uniq % 2)),
             _ => ("snapshot false".to_string(), String::new()),
@@ -100,7 +100,7 @@ fn gen_history(r: &mut Rng, n: usize) -> (Vec<COp>, Vec<COp>) {
                     "set" => format!("set {} w{}", k, uniq),
                     "set-safe" => format!("set-safe {} {} t{}", k, r.below(3), uniq),
                     "remove" => format!("remove {}", k),
-                    _ => format!("increment {} {}", k, r.range(1, 4)),
+                    _ => format!("increment {} {}", k, *r.pick(&[1i32, 2, 3, 4, 0])),
                 };
                 conc.push(COp { node: 0, session: s, line, kind, key: k.to_string() });
             }
